@@ -38,6 +38,10 @@ def edit_alphabet(lengths):
             ops.append(('dest', b'd.' + b't' * (n - 2)))
         if n >= 4:
             ops.append(('sender', b':1.' + b'7' * (n - 3)))
+    if 17 in lengths:
+        # the full (depth-1) alphabet also replaces the path by values that push every later field beyond 32 KiB / 64 KiB
+        for n in LONG_LENGTHS[1:]:
+            ops.append(('path', b'/' + b'P' * (n - 1)))
     for k in FIELDS:
         ops.append((k, None))
     for v in (1, 0xffffffff, 0x01020304):
@@ -89,7 +93,17 @@ def start_messages(tier):
                 f.insert(pos, unk)
                 f.insert((pos * 2) % (len(f) + 1), unk2)
                 out.append(R.Msg(mt, 2, 77, f + [(R.F_SIGNATURE, (b'g', b'u'))], [(b'u', 9)], 'lB'[pos % 2]))
+    # headers longer than 32 KiB / 64 KiB with known fields BEHIND the long value (offsets into the header beyond 2^15, 2^16)
+    for n in LONG_LENGTHS:
+        for e in 'lB':
+            out.append(R.Msg(R.MT_CALL, 0, 0x0a0b0c0d, [(R.F_PATH, (b'o', b'/' + b'L' * (n - 1))), (R.F_MEMBER, (b's', b'Mem')), (R.F_INTERFACE, (b's', b'x.y')),
+                                                       (R.F_DESTINATION, (b's', b'a.b')), (R.F_SIGNATURE, (b'g', b's'))], [(b's', b'body')], e))
+        out.append(R.Msg(R.MT_SIGNAL, 0, 78, [(12, (b's', b'u' * n)), (R.F_PATH, (b'o', b'/a')), (R.F_INTERFACE, (b's', b'a.b')), (R.F_MEMBER, (b's', b'Sig')),
+                                              (R.F_SENDER, (b's', b':1.3')), (R.F_SIGNATURE, (b'g', b'u'))], [(b'u', 9)], 'lB'[n % 2]))
     return out
+
+
+LONG_LENGTHS = (32766, 33000, 66000)
 
 
 def describe(m: R.Msg):
@@ -228,8 +242,10 @@ def run(ctx):
                 chosen = frontier
             tasks = []
             for (st, hist, state) in chosen:
-                for i in range(0, len(ops), 40):
-                    tasks.append((st, hist, state, ops[i:i + 40]))
+                oo = ops_deep if len(state) > 40000 else ops      # very long messages: the short alphabet (cost), in small tasks
+                step_ = 8 if len(state) > 40000 else 40
+                for i in range(0, len(oo), step_):
+                    tasks.append((st, hist, state, oo[i:i + step_]))
             nxt = []
             aborted = False
             for r in pool.imap(task_expand, tasks):
